@@ -74,6 +74,8 @@ OP_TABLE_DOC = [
     ("%", ["TypeError", "ZeroDivisionError", "ValueError"]),
     ("int(T), float(T)", ["TypeError", "ValueError"]),
     ("int(T:str), float(T:str)", ["ValueError"]),
+    ("int(x) for a float x derived from the input (float(T:str) may be inf / nan)", ["OverflowError", "ValueError"]),
+    ("sorted / min / max over input nodes, or with a key made of input nodes", ["TypeError"]),
     ("a, b = T", ["TypeError", "ValueError"]),
     ("T.attr", ["AttributeError"]),
     ("T.m(...)", ["AttributeError", "TypeError"]),
